@@ -359,10 +359,17 @@ package lang
 //@   fresh
 //@   modifies nothing
 //@   ensures result != nil
-//@ func (*Process).Fork [C11]
+//@ func (*Process).Fork [C11 C25]
 //@   scope functional
 //@   check none
-//@   requires p != nil
+//@   requires p != nil && p.Config != nil
+//@   at call (*Config).Copy#1 assert bit(flags, F_FUNCTION) && arg0 == p.Config
+//@   at call (*Config).Copy#2 assert !bit(flags, F_FUNCTION) && bit(flags, F_NEW_CONFIG) && arg0 == p.Config
+//@   at store Config#1 assert bit(flags, F_FUNCTION) && fresh(fork.Config) && fork.Config != nil
+//@   at store Config#1 assert imp(fork.Process != p, fork.Config.global == ite(p.Config.global == nil, p.Config, p.Config.global))
+//@   at store Config#2 assert !bit(flags, F_FUNCTION) && bit(flags, F_NEW_CONFIG) && fresh(fork.Config) && fork.Config != nil
+//@   at store Config#2 assert imp(fork.Process != p, fork.Config.global == ite(p.Config.global == nil, p.Config, p.Config.global))
+//@   at store Config#3 assert !bit(flags, F_FUNCTION) && !bit(flags, F_NEW_CONFIG) && fork.Config == p.Config
 //@   at store Variables#1 assert bit(flags, F_FUNCTION) && fresh(fork.Variables)
 //@   at store Variables#2 assert !bit(flags, F_FUNCTION) && fork.Variables == p.Variables
 //@   at store Variables#3 assert !bit(flags, F_FUNCTION) && fork.Variables == p.Variables
